@@ -10,6 +10,7 @@ import (
 	pb "github.com/xuperchain/xupercore/bcs/ledger/xledger/xldgpb"
 
 	"verif/gen"
+	"verif/refmodel"
 	sn "verif/simnode"
 )
 
@@ -42,6 +43,8 @@ type SUT struct {
 	Applied   map[int]bool // blocks ever applied to the state (for C17)
 	Stats     map[string]int
 	Tainted   bool
+	models    map[int]*refmodel.State
+	hn        int
 }
 
 // NewSUT starts a node at genesis of the tree's chain.
@@ -193,6 +196,23 @@ func (s *SUT) SubmitTx(x *pb.Transaction) string {
 	return "ok"
 }
 
+// poolWithin reports whether every pool transaction is part of block i: the producer
+// packs its whole pool (the real miner packs a prefix of the pool order; partial packing is
+// exercised by C13 through the pool-order oracle).
+func (s *SUT) poolWithin(i int) bool {
+	in := map[string]bool{}
+	for _, x := range s.T.Blocks[i].Block.Transactions {
+		in[string(x.Txid)] = true
+	}
+	pool, _ := s.N.State.GetUnconfirmedTx(false)
+	for _, x := range pool {
+		if !in[string(x.Txid)] {
+			return false
+		}
+	}
+	return true
+}
+
 // Mine lets the SUT act as producer of tree block i: admit its transactions to the own
 // pool, confirm the block, PlayForMiner.
 func (s *SUT) Mine(i int) Op {
@@ -228,27 +248,33 @@ func (s *SUT) Mine(i int) Op {
 }
 
 // PlayHazard reports the structural precondition of finding C03/pool-writer-vs-block-reader:
-// a pool transaction that is not part of block i writes a key that a transaction of block
-// i reads. Play (PlayAndRepost) does not evict such a pool transaction and then fails on
-// the block. Checks that do not own that finding keep out of its way (taint control).
+// a pool transaction W wrote a key K, and a transaction R of block i that is not in the
+// pool reads K at another version than W's. Play (PlayAndRepost) neither evicts W (when W
+// is outside the block) nor orders it after R (when W is itself part of the block and only
+// skipped as "already applied"), and then fails on R. Checks that do not own that finding
+// keep out of its way (taint control).
 func (s *SUT) PlayHazard(i int) bool {
 	blk := s.T.Blocks[i].Block
-	inBlock := map[string]bool{}
-	reads := map[string]bool{}
-	for _, x := range blk.Transactions {
-		inBlock[string(x.Txid)] = true
-		for _, in := range x.TxInputsExt {
-			reads[in.Bucket+"/"+string(in.Key)] = true
+	pool, _ := s.N.State.GetUnconfirmedTx(false)
+	inPool := map[string]bool{}
+	wrote := map[string][]string{} // key -> versions written by pool txs
+	for _, x := range pool {
+		inPool[string(x.Txid)] = true
+		for off, out := range x.TxOutputsExt {
+			k := out.Bucket + "/" + string(out.Key)
+			wrote[k] = append(wrote[k], refmodel.Version(x.Txid, int32(off)))
 		}
 	}
-	pool, _ := s.N.State.GetUnconfirmedTx(false)
-	for _, x := range pool {
-		if inBlock[string(x.Txid)] {
+	for _, x := range blk.Transactions {
+		if inPool[string(x.Txid)] {
 			continue
 		}
-		for _, out := range x.TxOutputsExt {
-			if reads[out.Bucket+"/"+string(out.Key)] {
-				return true
+		for _, in := range x.TxInputsExt {
+			cited := refmodel.Version(in.RefTxid, in.RefOffset)
+			for _, v := range wrote[in.Bucket+"/"+string(in.Key)] {
+				if v != cited {
+					return true
+				}
 			}
 		}
 	}
@@ -282,7 +308,7 @@ func (s *SUT) Step(rng *rand.Rand, o StepOpts) Op {
 			}
 		} else if s.Confirmed[b.Parent] {
 			confirmable = append(confirmable, b.Idx)
-			if b.Parent == tip && s.LedgerTip() == tip {
+			if b.Parent == tip && s.LedgerTip() == tip && s.poolWithin(b.Idx) {
 				minable = append(minable, b.Idx)
 			}
 		}
